@@ -82,4 +82,8 @@ theorem DisasmFmt_lddw (p : Bytes) (pc : Nat) (i : Insn) (h : getInsn? p pc = so
     simp
     apply String.toList_inj.mp; simp [String.toList_append]
 
+/-- `to_insn_vec` around its match (length test, empty program, loop test, fetch, default immediate, the `HLInsn` pushed, the step, the panic on an unknown opcode) has
+    the shape the model's `toInsnVec` / `loop` / `entryAt` mirror (recognised as a whole by the translator: any other text makes a flag false) -/
+theorem DisasmFmt_loop_shape : toInsnVecHead = true ∧ toInsnVecTail = true ∧ toInsnVecDefault = true := by decide
+
 end Rbpf
